@@ -16,9 +16,14 @@ Proof.
   destruct (is_nl c); cbn [nlen length]; unfold nlen; cbn [length]; lia.
 Qed.
 
+Lemma lrev_rev {A} (l : list A) : lrev l = rev l.
+Proof. unfold lrev. symmetry. apply rev_alt. Qed.
+Lemma last_line_eq cs : last_line cs = rev (take_while (fun c => negb (is_nl c)) (rev cs)).
+Proof. unfold last_line. rewrite !lrev_rev. reflexivity. Qed.
+
 Lemma last_line_snoc cs c : last_line (cs ++ [c]) = if is_nl c then [] else last_line cs ++ [c].
 Proof.
-  unfold last_line. rewrite rev_app_distr. cbn [rev app take_while].
+  rewrite !last_line_eq. rewrite rev_app_distr. cbn [rev app take_while].
   destruct (is_nl c); cbn [negb]; [reflexivity|]. cbn [rev]. reflexivity.
 Qed.
 
@@ -452,7 +457,7 @@ Qed.
 
 Lemma last_line_after_nl x c y : is_nl c = true -> last_line (x ++ c :: y) = last_line y.
 Proof.
-  intros H. unfold last_line. rewrite rev_app_distr. cbn [rev]. rewrite <- app_assoc. cbn [app].
+  intros H. rewrite !last_line_eq. rewrite rev_app_distr. cbn [rev]. rewrite <- app_assoc. cbn [app].
   rewrite take_while_stop by (rewrite H; reflexivity). reflexivity.
 Qed.
 
@@ -471,7 +476,7 @@ Proof.
 Qed.
 Lemma last_line_filter_le g x : nlen (filter g (last_line x)) <= nlen (filter g x).
 Proof.
-  unfold last_line, nlen. rewrite filter_rev_len.
+  rewrite last_line_eq. unfold nlen. rewrite filter_rev_len.
   pose proof (filter_take_while_len g (fun c => negb (is_nl c)) (rev x)) as H. rewrite filter_rev_len in H. lia.
 Qed.
 
@@ -488,10 +493,10 @@ Lemma guard_cur_bound M cs : forall cur, forallb (fun l => nlen l <=? M) (guard_
 Proof.
   induction cs as [|c r IH]; intros cur H; cbn [guard_lines] in H.
   - destruct cur as [|x cur']; [cbn; lia|]. cbn [forallb] in H. rewrite andb_true_r in H. apply N.leb_le in H.
-    unfold nlen in *. rewrite rev_length in H. pose proof (strip_cr_len (x :: cur')). lia.
+    unfold nlen in *. rewrite lrev_rev, rev_length in H. pose proof (strip_cr_len (x :: cur')). lia.
   - destruct (is_nl c).
     + cbn [forallb] in H. apply andb_prop in H. destruct H as [H _]. apply N.leb_le in H.
-      unfold nlen in *. rewrite rev_length in H. pose proof (strip_cr_len cur). lia.
+      unfold nlen in *. rewrite lrev_rev, rev_length in H. pose proof (strip_cr_len cur). lia.
     + specialize (IH (c :: cur) H). cbn [filter] in IH. destruct (notcr c); unfold nlen in *; cbn [length] in IH; lia.
 Qed.
 
